@@ -535,6 +535,6 @@ def validate(seed, tier):
 
 MANIFEST_ENTRY = {
     "level_text": "Bounded symbolic execution of the real grid_cdf_sampler.sample, vec_1d_interp and Taus.tau_energy: a 2x2 table cell with symbolic axes and four arbitrary non-decreasing corner CDF rows (M=3 quick / 4 thorough nodes), symbolic query point and random numbers. nlsat proves F(z)=u for the bilinearly interpolated piecewise-linear F (reference blend written independently of the interpolator stub), z inside the fraction range, monotonicity in u, rejection of out-of-table energies, the below/above-range clamps of the wrapper and that explicit random numbers give, event by event, what the internal generator gives, for every below/inside/above pattern of N=2 (quick) / 3 (thorough) events. All rows of the three shipped CDF tables are checked by per-row z3 queries with a symbolic column index.",
-    "level_note": "REAL arithmetic; scipy interpn and np.nditer are stubs (reference multilinear interpolation; one chunk); one table cell; M bounded; IEEE rounding and the 8192-element nditer buffer boundary are outside the claim.",
+    "level_note": "A wiring job runs the real Taus.__init__ with a recording NssGrid.read for table versions 1-3 (both tables must be the configured version's files; replayed against the shipped files). REAL arithmetic; scipy interpn and np.nditer are stubs (reference multilinear interpolation; one chunk); one table cell; M bounded; IEEE rounding and the 8192-element nditer buffer boundary are outside the claim.",
     "technique": "symbolic execution of the real NumPy source (DFS over brackets and clamp patterns) + z3 qfnra-nlsat; per-row z3 table queries",
 }
